@@ -157,8 +157,7 @@ class BoundPrim(object):
 
 
 def is_num(v):
-  return isinstance(v, (int, Fraction)) and not isinstance(v, bool) or \
-      isinstance(v, bool)
+  return isinstance(v, (int, Fraction, float))
 
 
 def fr(v):
@@ -459,6 +458,20 @@ class PE(object):
     elif isinstance(st, (ast.Import, ast.ImportFrom)):
       return
     elif isinstance(st, ast.Delete):
+      for t in st.targets:
+        if isinstance(t, ast.Subscript):
+          obj = self.eval(t.value, frames, module)
+          idx = self.index_key(self.eval(t.slice, frames, module))
+          if isinstance(obj, dict):
+            if idx not in obj:
+              raise PyRaise("KeyError", repr(idx))
+            del obj[idx]
+          elif isinstance(obj, list):
+            del obj[idx]
+          else:
+            self.err("del on %r" % (obj,), st)
+        elif isinstance(t, ast.Name):
+          frames[-1].pop(t.id, None)
       return
     else:
       self.err("statement %s" % type(st).__name__, st)
@@ -1246,12 +1259,16 @@ class PE(object):
       if n == "format":
         return "<formatted>"
       if n in ("startswith", "endswith", "split", "replace", "lower",
-               "upper", "strip"):
+               "upper", "strip", "find", "rfind", "count", "isdigit",
+               "lstrip", "rstrip", "index"):
         return getattr(r, n)(*args)
     self.err("method %s of %r" % (n, r), node)
 
   # -- external primitives -----------------------------------------------
   def call_ext(self, name, args, kwargs, node):
+    ov = getattr(self, "ext_overrides", None)
+    if ov and name in ov:
+      return ov[name](self, args, kwargs)
     from . import prims
     return prims.call(self, name, args, kwargs, node)
 
